@@ -1,32 +1,74 @@
-"""C14 - spatial indices report exactly the overlapping pairs."""
+"""C14 - spatial indices report exactly the overlapping pairs (3-D collider, 2-D broad phase, polygon k-d tree)."""
 import os
+from concurrent.futures import ThreadPoolExecutor
 from vlib import core, cases
 
 LEVEL = "proof"
-PROPS = ["MV/Props/C14.lean"]
+PROPS = ["MV/Props/C14.lean", "MV/Props/C14b.lean"]
 ASSUMPTIONS = [
     "theorems are about MV/Model/Collider.lean (Karras radix tree, bottom-up boxes for every arrival order, stack traversal, Transform/UpdateBoxes); "
     "tied to src/collider.h by building the real Collider on integer-lattice boxes and comparing internalChildren_/nodeParent_/nodeBBox_ and the reported pairs (in traversal order) exactly",
     "coordinates are Int in the model: NaN/inf boxes (incl. the empty-query early exit) are outside the theorems; indices are unbounded (int overflow of max_length*=4 for n>2^29 not modelled)",
-    "the 2-D broad phase (BVHBuildFromBoxes/BVHCollisions, x-sorted sweep) and the polygon k-d tree are checked against brute force only (no Lean model yet)",
+    "2-D half (MV/Props/C14b.lean) is about MV/Model/Broad2.lean: the x-sorted sweep and the BVH branch of CollectIntersectionPairs, BVHBuildFromBoxes, BVHCollisions, "
+    "BuildTwoDTree/QueryTwoDTree; tied to src/boolean2.cpp, boolean2.h, tree2d.cpp, tree2d.h by running the REAL functions (the .cpp files are #included into harness/c14_broad2.cpp) on "
+    "integer-lattice boxes/points and comparing leafToOrig/internalChildren/nodeBBox, the recorded leaves in traversal order, the emitted pair lists in emission order, the point array after "
+    "BuildTwoDTree and the reported points in report order exactly; serial build (MANIFOLD_PAR=-1: CollidePairs branch) and virtual-TBB build (MANIFOLD_PAR=1: PairsRecorder/combinable branch)",
+    "Morton codes (MortonCode2: floating point) and the verdicts of SharedEndpointSafelySkippable (floating point) are INPUTS of the 2-D model: the theorems hold for every code array < 2^32 and every "
+    "filter (symmetric for the sweep); the harness passes the values the real functions return",
+    "xsweep_pairs_exact needs min.x <= max.x for every box (BoxOf2DEdge with eps >= 0 guarantees it; xsweep_needs_valid shows an inverted box makes the sweep and Box2::DoesOverlap disagree; "
+    "bvh2_pairs_exact needs no such hypothesis); std::stable_sort is modelled by core's List.mergeSort (stable; the result of a stable sort is unique)",
+    "kdtree_query_exact: the 64-entry stack suffices for n < 9*2^64 points (stated as hypothesis); QueryTwoDTree's DEBUG_ASSERT is off in release builds, the model returns none instead",
+    "MergeVerts' candidate sweep is internal to MergeVerts (not observable): it is covered only by the result oracle (clusters = connected components of the distance<=eps graph by an all-pairs scan)",
 ]
+
+H3D = os.path.join(core.ROOT, "harness", "c14_collider.cpp")
+H2D = os.path.join(core.ROOT, "harness", "c14_broad2.cpp")
+VT = os.path.join(core.ROOT, "harness", "vtbb")
+GC = ["-ffunction-sections", "-Wl,--gc-sections"]   # boolean2.cpp's (uncalled) Boolean2 driver refers to other translation units
 
 
 def run(ctx):
-    cov = core.proof_gate(ctx.pid, PROPS, ["MV.Props.C14"] if ctx.tier == "thorough" else None)
-    cov["checker_cmd"] = "cd lean && lake build MV mvdriver && lake env lean <#print axioms for every theorem of MV/Props/C14.lean>"
-    cov["trusted_base"] = core.TRUSTED_BASE + ["virtual TBB shim (harness/vtbb) for the n>1e4 construction paths"]
-    exe = core.compile_harness("c14_collider", [os.path.join(core.ROOT, "harness", "c14_collider.cpp")],
-                               ["-O1", "-g", "-DMANIFOLD_PAR=1", "-I" + os.path.join(core.ROOT, "harness", "vtbb")])
+    # the three harness builds run while the proof gate is busy
+    with ThreadPoolExecutor(max_workers=3) as ex:
+        f3d = ex.submit(core.compile_harness, "c14_collider", [H3D], ["-O1", "-g", "-DMANIFOLD_PAR=1", "-I" + VT])
+        fser = ex.submit(core.compile_harness, "c14_broad2", [H2D], ["-O1", "-DMANIFOLD_PAR=-1"] + GC, "c14_broad2_ser")
+        fvt = ex.submit(core.compile_harness, "c14_broad2", [H2D], ["-O0", "-DMANIFOLD_PAR=1", "-I" + VT] + GC, "c14_broad2_vtbb")   # -O0: the PAR=1 templates dominate the compile time
+        cov = core.proof_gate(ctx.pid, PROPS, ["MV.Props.C14", "MV.Props.C14b"] if ctx.tier == "thorough" else None)
+        exe, exe_ser, exe_vt = f3d.result(), fser.result(), fvt.result()
+    cov["checker_cmd"] = "cd lean && lake build MV mvdriver && lake env lean <#print axioms for every theorem of MV/Props/C14.lean and MV/Props/C14b.lean>"
+    cov["trusted_base"] = core.TRUSTED_BASE + ["virtual TBB shim (harness/vtbb) for the n>1e4 construction paths and the MANIFOLD_PAR=1 branch of CollectIntersectionPairs"]
     if ctx.tier == "quick":
         cs, stats = cases.run_case_harness(ctx, exe, [150, 0])
+        cs_ser, _ = cases.run_case_harness(ctx, exe_ser, [200, 1])
+        cs_vt, _ = cases.run_case_harness(ctx, exe_vt, [80, 1])
     else:
         cs, stats = cases.run_case_harness(ctx, exe, [1500, 1])
-    c2 = cases.correspond(ctx, cs, "Collider arrays and reported pairs vs MV.Collider model")
-    cov.update(c2)
+        cs_ser, _ = cases.run_case_harness(ctx, exe_ser, [4000, 2])
+        cs_vt, _ = cases.run_case_harness(ctx, exe_vt, [2000, 2])
+    c3 = cases.correspond(ctx, cs, "Collider arrays and reported pairs vs MV.Collider model")
+    for c in cs_vt:
+        c["tag"] = c["tag"] + " vtbb"
+    c2s = cases.correspond(ctx, cs_ser, "2-D broad phase / k-d tree (serial build) vs MV.Broad2 model")
+    c2v = cases.correspond(ctx, cs_vt, "2-D broad phase / k-d tree (virtual-TBB build) vs MV.Broad2 model")
+    cov.update(c3)
+    for k in ("evaluations", "model_vs_impl_compared", "distinct_nontrivial", "mismatches", "property_failures"):
+        cov[k] = c3[k] + c2s[k] + c2v[k]
+    cov["driver_wall_s"] = round(c3["driver_wall_s"] + c2s["driver_wall_s"] + c2v["driver_wall_s"], 1)
+    kinds = dict(c3["kinds"])
+    for d in (c2s["kinds"], c2v["kinds"]):
+        for k, v in d.items():
+            kinds[k] = kinds.get(k, 0) + v
+    cov["kinds"] = kinds
+    cov["parts"] = {"collider_3d": c3, "broad2_serial": c2s, "broad2_vtbb": c2v}
     cov["exhaustive"] = False
-    cov["rule"] = ("n in 2..600 (and 10002..13000 to reach the parallel construction), codes from {3 values, 50 values, 30-bit random, all equal, 32-bit random} sorted, "
+    cov["rule"] = ("3-D: n in 2..600 (and 10002..13000 to reach the parallel construction), codes from {3 values, 50 values, 30-bit random, all equal, 32-bit random} sorted, "
                    "boxes on a lattice of side 1..20 with repeats and the all-identical degenerate case; modes tree/boxes/query/pquery/tquery/uquery with self-collision on/off; "
-                   "thorough adds every non-decreasing code array over {0,1,2} for n<=7; distinct = distinct request lines")
-    cov["samples"] = [{"case": c["tag"], "request": core.clip(c["req"], 200), "answer": core.clip(c["exp"], 120)} for c in cs[:4]]
+                   "thorough adds every non-decreasing code array over {0,1,2} for n<=7. "
+                   "2-D: n in 1..40 and 2..200 per round, then n = 1000, 1022..1026 (both sides of kEdgePairBvhThreshold), 3000 (thorough: 2000, 5000, 12000), BOTH branches of "
+                   "CollectIntersectionPairs on every size; box flavours random / many identical / three distinct min.x / zero-width and point boxes / all identical / vertical strips; "
+                   "edges with distinct endpoints (filter never fires) and edges over a small vertex pool with the real SharedEndpointSafelySkippable verdicts passed as the skip table; "
+                   "modes xsweep/bvh2pairs/bvh2/bvh2query/kdbuild/kdquery/mergeverts(oracle only); k-d tree n in 0..8, 9, 17, 8..38, 10..310, 1000, 1023..1025, 4000 with "
+                   "few distinct x / few distinct y / 3x3 lattice / all identical / diagonal points, rectangles incl. a point, everything, a segment, edges on point coordinates, inverted; "
+                   "every case: exact comparison with the model in the order the code reports + all-pairs / all-points oracle; distinct = distinct request lines")
+    cov["samples"] = [{"case": c["tag"], "request": core.clip(c["req"], 200), "answer": core.clip(c["exp"], 120)} for c in (cs[:2] + cs_ser[:3] + cs_vt[:1])]
     return cov
